@@ -112,9 +112,11 @@ def dishonest(ch, now):
     key_parent = prev_name
     if dev == "key-by-ca" and depth >= 2:
         key_signer, key_parent = sks[depth - 2], (names[depth - 3] if depth >= 3 else "sgx_root")
-    if key_signer.curve != sgxpki.P256:
+    if key_signer.curve != sgxpki.P256 and ch.draw(2, "dis.p384-genuinely-signs") == 0:
         qe_sig = sgxpki.sign_der(sgxpki.sk_from(b"zz"), qe_rb)
     else:
+        # (a certifier on another curve may well have signed the report body for real: it is still
+        # not the P-256 key the property asks for)
         qe_sig = sgxpki.sign_der(key_signer, qe_rb)
     qrd = hashlib.sha256(custom).digest()
     if dev == "quote-binding":
